@@ -42,6 +42,9 @@ func oracle(stream, in, outp string) {
 			if f[0] == "stream" {
 				return st.oracleStream(f)
 			}
+			if f[0] == "debug" {
+				return st.oracleDebug(f)
+			}
 		case "refs":
 			return rf.oracleOp(f)
 		case "sds":
